@@ -4,18 +4,56 @@
   Property theorems only.  The struct bundle is `Spec.elfStructs cfg` (tied to the
   regenerated bundles by Props/TieC08.lean); `pre`/`rest` are arbitrary surrounding
   bytes (the rest of the file).
+
+  WHAT IS PROVED
+  * tables: `rel_roundtrip`, `rel_entry_roundtrip` (REL/RELA, both classes and byte orders, the MIPS64 packed r_info,
+    negative addends, any position in any byte string), `relr_eq_std` / `relr_bitmap_eq_std` (every RELR stream),
+    the entry-size guards.
+  * recipes: `recipes_match_psabi`, `recipes_only_psabi` (kernel-checked walks of the regenerated recipe tables against
+    the psABI table of Spec/Reloc.lean).
+  * application: `apply_eq_std`, `apply_frame`, `apply_section_eq_std(_layout)`, the three rejections, and — fifth
+    wave — the former exclusions as theorems: `apply_none_any_offset` (R_*_NONE touches nothing, whatever r_offset),
+    `apply_rejects_composite` (MIPS64 entries using r_type2 / r_type3 / r_ssym, any first type, both flavours),
+    `apply_field_outside` (a field not inside the section: ELFParseError, nothing written).  `WFApplyOne` no longer
+    asks for 8 bytes of room for R_*_NONE nor for zero MIPS64 sub-fields (`wfApply_of_room`: the earlier domain
+    `WFApplyRoom` is inside the present one, so every earlier statement still holds as it was stated).
+  * dynamic tables: `dyn_tags_roundtrip`, `dyn_reloc_tables_exact` (now without the "no table at address 0"
+    hypothesis; the earlier form is `dyn_reloc_tables_exact_partial`), `address_offset_eq_std`; the edges as theorems:
+    `dyn_rel_no_size` … `dyn_jmprel_incomplete` (a table tag without its mandatory companions: bare StopIteration),
+    `dyn_rel_bad_ent` / `dyn_rela_bad_ent` (ELFError), `dyn_unmapped_*` (offset None: TypeError on access).
+  * lookup: `find_relocations_exact`, `find_relocations_malformed`, `read_dwarf_section_relocated` (header lists given).
+  * WHOLE FILES (fifth wave, composition with C01): for ANY byte string `bytes` with `Spec.Layout d bytes` for a
+    `wfZ` description `d` — `file_rel_roundtrip`, `file_relr_eq_std`, `file_get_section_by_name`,
+    `file_find_relocations_exact` (+ `find_by_name_eq_by_info`: the lookup by name is the gABI's lookup by `sh_info`
+    when names follow the convention), `file_apply_section_eq_std`, `file_read_dwarf_section_relocated`,
+    `file_read_dwarf_section_untouched`, `file_get_dwarf_info_section`.  Headers, names, `sh_link`, the machine and
+    all contents are decoded from `bytes` by the mirror of elffile.py (C01) and of `_read_dwarf_section` (C11's
+    `Model/DwarfView.lean`).
+
+  CORRESPONDENCE-ONLY (impl == model on every run, no theorem): R_ARM_CALL and the eBPF recipes; machines outside the
+  list; section names that are not valid UTF-8 (the model compares bytes); SHF_COMPRESSED / SHT_NOBITS / phantom-byte
+  debug sections under relocation (C11's subject); error behaviour on truncated files (short reads inside a table:
+  ELFParseError) and on relocation sections whose `sh_link` is not a symbol table (AttributeError at the first entry).
 -/
 import PyElf.Spec.Reloc
+import PyElf.Spec.RelocFile
 import PyElf.Model.Relocation
+import PyElf.Model.RelocationFile
 import PyElf.Proofs.Reloc
 import PyElf.Proofs.Relr
 import PyElf.Proofs.RelocApply
 import PyElf.Proofs.RelocSection
 import PyElf.Proofs.RelocSym
 import PyElf.Proofs.RelocDyn
+import PyElf.Proofs.RelocDynEdge
+import PyElf.Proofs.RelocEdge
+import PyElf.Proofs.RelocFile
+import PyElf.Proofs.RelocExamples
 import PyElf.Props.TieC08
+import PyElf.Props.C01
 namespace PyElf.Props.C08
-open PyElf PyElf.Spec PyElf.Spec.RelocDyn PyElf.Model PyElf.Model.Reloc PyElf.Proofs PyElf.Proofs.Reloc PyElf.Proofs.RelocDyn
+open PyElf PyElf.Spec PyElf.Spec.RelocDyn PyElf.Spec.C08 PyElf.Model PyElf.Model.Reloc PyElf.Model.C08 PyElf.Proofs PyElf.Proofs.Reloc
+  PyElf.Proofs.RelocDyn PyElf.Proofs.RelocFile
 
 /-! ### REL / RELA tables (sections and dynamic tables share `RelocationTable`) -/
 
@@ -125,7 +163,8 @@ theorem recipes_only_psabi (a : Arch) (rela : Bool) (t : Nat) (hf : flavourOk a 
 
 /-- Model = standard for one relocation once the symbol value is known: the field holds the psABI formula's value
     truncated to the field width in the file's byte order and every other byte is unchanged (`Spec.writeField`);
-    R_*_NONE changes nothing; wrong flavour, unlisted type and MIPS64 composite R_MIPS_64 are ELFRelocationError. -/
+    R_*_NONE changes nothing (and reads nothing: any `r_offset`); wrong flavour, unlisted type and MIPS64 composite
+    entries (any first type) are ELFRelocationError. -/
 theorem apply_eq_std (a : Arch) (c : RelCfg) (hm : c.mips = decide (a = .mips)) (rela : Bool) (sec : Bytes)
     (e : RelEntry) (s : Nat) (hwf : WFApplyOne a c rela sec.length e = true) (hlen : sec.length < 2 ^ 63) :
     applyWithSym c.le c.cls (archString a) sec (observeRel c rela e) (s : Int) =
@@ -322,16 +361,17 @@ theorem dyn_tags_roundtrip (cfg : ElfCfg) (hcls : cfg.cls = 32 ∨ cfg.cls = 64)
     (DT_REL/DT_RELSZ/DT_RELENT, DT_RELA/DT_RELASZ/DT_RELAENT, DT_RELR/DT_RELRSZ/DT_RELRENT, DT_JMPREL/DT_PLTRELSZ/
     DT_PLTREL — in any order, amid any other entries), terminated by DT_NULL, anywhere in the file: the result has
     exactly the tables of `d`, in the order REL, RELA, RELR, JMPREL; each table's file offset is its address mapped
-    through the PT_LOAD segment holding it (`None` when no segment does), its size the *SZ value, its entry struct
-    and entry size those of its flavour (JMPREL: the flavour DT_PLTREL names).  `specDynTables` builds the table
-    objects from `specTable` / `specRelr`, i.e. the very objects `rel_roundtrip` and `relr_eq_std` are about. -/
+    through the PT_LOAD segment holding it (`None` when no segment does; address 0 is an address like any other),
+    its size the *SZ value, its entry struct and entry size those of its flavour (JMPREL: the flavour DT_PLTREL names).
+    `specDynTables` builds the table objects from `specTable` / `specRelr`, i.e. the very objects `rel_roundtrip` and
+    `relr_eq_std` are about. -/
 theorem dyn_reloc_tables_exact (cfg : ElfCfg) (hcls : cfg.cls = 32 ∨ cfg.cls = 64) (env : Env)
     (henv : DTagEnv env (dTagTable cfg.mclass cfg.solaris)) (d : DynRelocs) (tags : List DynEntry) (nv : Nat)
     (loads : List LoadSeg) (data rest : Bytes) (off : Nat)
     (hd : data.drop off = encDynArray cfg.le cfg.cls (tags ++ [(DT_NULL, nv)]) ++ rest)
     (hfit : off + (tags.length + 1) * (2 * (cfg.cls / 8)) ≤ 2 ^ 63)
     (hwf : ∀ e ∈ tags ++ [(DT_NULL, nv)], WFDyn cfg.cls e = true) (hnn : ∀ e ∈ tags, e.1 ≠ DT_NULL)
-    (hdesc : DynDescribes (relCfgOf cfg) d tags = true) (hd0 : WFDynRelocs d = true) :
+    (hdesc : DynDescribes (relCfgOf cfg) d tags = true) :
     (do let tg ← iterTags env (Spec.elfStructs cfg) data off false
         getRelocationTables (Spec.elfStructs cfg) tg (loads.map toLoad))
       = .ok (specDynTables cfg loads d) ∧
@@ -339,8 +379,23 @@ theorem dyn_reloc_tables_exact (cfg : ElfCfg) (hcls : cfg.cls = 32 ∨ cfg.cls =
   refine ⟨?_, specDynTables_obs cfg loads d⟩
   rw [iterTags_spec cfg hcls env henv tags nv hwf hnn hd hfit]
   show getRelocationTables _ _ _ = _
-  exact getRelocationTables_spec cfg hcls _ loads d hd0
+  exact getRelocationTables_spec cfg hcls _ loads d
     (fun name k hp hk => tagsOf_described henv hdesc nv hp hk)
+
+/-- the form of the first four waves, with the extra hypothesis `WFDynRelocs d` (no table at virtual address 0), from
+    the time the library took a null table pointer for an absent tag -/
+theorem dyn_reloc_tables_exact_partial (cfg : ElfCfg) (hcls : cfg.cls = 32 ∨ cfg.cls = 64) (env : Env)
+    (henv : DTagEnv env (dTagTable cfg.mclass cfg.solaris)) (d : DynRelocs) (tags : List DynEntry) (nv : Nat)
+    (loads : List LoadSeg) (data rest : Bytes) (off : Nat)
+    (hd : data.drop off = encDynArray cfg.le cfg.cls (tags ++ [(DT_NULL, nv)]) ++ rest)
+    (hfit : off + (tags.length + 1) * (2 * (cfg.cls / 8)) ≤ 2 ^ 63)
+    (hwf : ∀ e ∈ tags ++ [(DT_NULL, nv)], WFDyn cfg.cls e = true) (hnn : ∀ e ∈ tags, e.1 ≠ DT_NULL)
+    (hdesc : DynDescribes (relCfgOf cfg) d tags = true) (_hd0 : WFDynRelocs d = true) :
+    (do let tg ← iterTags env (Spec.elfStructs cfg) data off false
+        getRelocationTables (Spec.elfStructs cfg) tg (loads.map toLoad))
+      = .ok (specDynTables cfg loads d) ∧
+    (specDynTables cfg loads d).map (fun p => (p.1, obsDynTable p.2)) = dynTablesStd (relCfgOf cfg) loads d :=
+  dyn_reloc_tables_exact cfg hcls env henv d tags nv loads data rest off hd hfit hwf hnn hdesc
 
 /-- the library's own environment satisfies `DTagEnv` for every configuration (TieC08.dtag_env), so the theorem
     holds of `elfEnv` outright -/
@@ -349,11 +404,11 @@ theorem dyn_reloc_tables_exact_elfEnv (cfg : ElfCfg) (hcls : cfg.cls = 32 ∨ cf
     (hd : data.drop off = encDynArray cfg.le cfg.cls (tags ++ [(DT_NULL, nv)]) ++ rest)
     (hfit : off + (tags.length + 1) * (2 * (cfg.cls / 8)) ≤ 2 ^ 63)
     (hwf : ∀ e ∈ tags ++ [(DT_NULL, nv)], WFDyn cfg.cls e = true) (hnn : ∀ e ∈ tags, e.1 ≠ DT_NULL)
-    (hdesc : DynDescribes (relCfgOf cfg) d tags = true) (hd0 : WFDynRelocs d = true) :
+    (hdesc : DynDescribes (relCfgOf cfg) d tags = true) :
     (do let tg ← iterTags elfEnv (Spec.elfStructs cfg) data off false
         getRelocationTables (Spec.elfStructs cfg) tg (loads.map toLoad))
       = .ok (specDynTables cfg loads d) :=
-  (dyn_reloc_tables_exact cfg hcls elfEnv (TieC08.dtag_env _ _) d tags nv loads data rest off hd hfit hwf hnn hdesc hd0).1
+  (dyn_reloc_tables_exact cfg hcls elfEnv (TieC08.dtag_env _ _) d tags nv loads data rest off hd hfit hwf hnn hdesc).1
 
 /-- address translation: the model's `address_offsets` walk is the standard's `fileOffset` -/
 theorem address_offset_eq_std (loads : List LoadSeg) (a : Nat) :
@@ -417,6 +472,402 @@ theorem read_dwarf_section_relocated (cfg : ElfCfg) (hcls : cfg.cls = 32 ∨ cfg
   exact apply_section_eq_std cfg hcls env a hm r es syms sec symtab data s.offset rest rest' hrel hsymtab hentsz hsizeS
     hfit hfitS hwf
 
+/-! ### the edges of the application domain (fifth wave): what used to be excluded by `WFApplyOne`
+
+  * R_*_NONE.  i386 psABI table 4.9, x86-64 psABI table 4.9, MIPS psABI table 4-?, LoongArch ELF psABI: field "none",
+    calculation "none".  The library read and rewrote a word (4 or 8 bytes) at `r_offset`, so an R_*_NONE entry whose
+    `r_offset` lies within that many bytes of the section end — or anywhere beyond it; the psABIs attach no meaning to it —
+    raised ELFParseError from `get_dwarf_info`.  The type IS in the supported set and the property says every byte
+    is unchanged: DEFECT, fixed by fixes/C08-none-no-field.patch (identity recipes return before the read).
+  * MIPS64 composites.  MIPS64 ELF object file specification §2.9.1: `r_type`, `r_type2`, `r_type3` are applied in
+    sequence, the second with `r_ssym`.  The library checked the sub-fields for R_MIPS_64 only; an entry
+    (R_MIPS_32, R_MIPS_SUB, …) or (R_MIPS_NONE, R_MIPS_32, …), REL or RELA, was applied as its first type alone — the
+    rest silently skipped, which the property forbids ("rejected … rather than silently skipped"): DEFECT, fixed by
+    fixes/C08-mips64-composite-any-type.patch (every composite entry is ELFRelocationError).
+  * a field that does not lie inside the section is a malformed object (outside the quantifier): documented boundary,
+    the behaviour is `apply_field_outside`. -/
+
+/-- R_*_NONE of every machine that has one, either flavour where the machine has both: whatever `r_offset`, addend,
+    symbol value and section (even an empty one), the stream is returned as it was and nothing is read -/
+theorem apply_none_any_offset (a : Arch) (c : RelCfg) (hm : c.mips = decide (a = .mips)) (rela : Bool) (sec : Bytes)
+    (e : RelEntry) (s : Int) (hf : flavourOk a rela = true)
+    (hsingle : c.packed = true → e.type2 = 0 ∧ e.type3 = 0 ∧ e.ssym = 0)
+    (w : Nat) (hps : psabi a rela e.type = some (w, .keep)) :
+    applyWithSym c.le c.cls (archString a) sec (observeRel c rela e) s = .ok sec := by
+  refine applyWithSym_none a c hm rela sec e s hf ?_ hps
+  cases hp : c.packed
+  · rfl
+  · obtain ⟨h2, h3, h4⟩ := hsingle hp
+    simp [h2, h3, h4]
+
+/-- MIPS64 (the packed `r_info`): an entry that uses `r_type2`, `r_type3` or `r_ssym` is ELFRelocationError — whatever
+    its first type (R_MIPS_NONE, R_MIPS_32, R_MIPS_64 or an unlisted one), REL or RELA, before anything is read -/
+theorem apply_rejects_composite (a : Arch) (c : RelCfg) (hm : c.mips = decide (a = .mips)) (rela : Bool) (sec : Bytes)
+    (e : RelEntry) (s : Int) (hp : c.packed = true) (h : e.type2 ≠ 0 ∨ e.type3 ≠ 0 ∨ e.ssym ≠ 0) :
+    applyWithSym c.le c.cls (archString a) sec (observeRel c rela e) s = .error .elfRelocError :=
+  applyWithSym_composite a c hm rela sec e s hp h
+
+/-- boundary: a listed type with a field (not R_*_NONE) whose `w` bytes at `r_offset` do not lie inside the section —
+    the read of the field comes up short: ELFParseError, and nothing has been written -/
+theorem apply_field_outside (a : Arch) (c : RelCfg) (hm : c.mips = decide (a = .mips)) (rela : Bool) (sec : Bytes)
+    (e : RelEntry) (s : Int) (hf : flavourOk a rela = true)
+    (hsingle : c.packed = true → e.type2 = 0 ∧ e.type3 = 0 ∧ e.ssym = 0)
+    (w : Nat) (fm : Formula) (hps : psabi a rela e.type = some (w, fm)) (hk : fm ≠ .keep)
+    (hout : sec.length < e.offset + w) :
+    applyWithSym c.le c.cls (archString a) sec (observeRel c rela e) s = .error .elfParseError := by
+  refine applyWithSym_field_outside a c hm rela sec e s hf ?_ hps hk hout
+  cases hp : c.packed
+  · rfl
+  · obtain ⟨h2, h3, h4⟩ := hsingle hp
+    simp [h2, h3, h4]
+
+/-- the domain of the first four waves (8 bytes of room for R_*_NONE, zero MIPS64 sub-fields unless R_MIPS_64) is inside
+    the present one: every theorem above stated with `WFApply` holds with `WFApplyRoom` in its place -/
+theorem wfApply_of_room (a : Arch) (c : RelCfg) (rela : Bool) (syms : List Nat) (L : Nat) (es : List RelEntry)
+    (h : WFApplyRoom a c rela syms L es = true) : WFApply a c rela syms L es = true :=
+  Proofs.Reloc.wfApply_of_room h
+
+/-! ### `get_relocation_tables` at the edges of its domain (fifth wave)
+
+  gABI ch. 5 "Dynamic Section": DT_RELSZ and DT_RELENT are mandatory when DT_REL is present (likewise DT_RELASZ /
+  DT_RELAENT with DT_RELA; DT_PLTRELSZ / DT_PLTREL with DT_JMPREL; the RELR proposal: DT_RELRSZ / DT_RELRENT with
+  DT_RELR).  An array without them is malformed — outside the property's quantifier ("all relocation tables"), and the
+  property prescribes no error for it.  What the library does is a bare `StopIteration` out of `next(iter_tags(..))`:
+  DOCUMENTED BOUNDARY (not an `ELFError`; a caller that wraps `get_relocation_tables` in a generator would see the
+  generator end silently).  `ts` is the decoded tag list, i.e. what `dyn_tags_roundtrip` shows `_iter_tags` to yield.
+  A table at virtual address 0 is NOT an edge any more: fix C09-table-pointer-zero made `get_table_offset` map it like
+  any other address, the model follows, and `dyn_reloc_tables_exact` has lost the hypothesis. -/
+
+theorem dyn_rel_no_size (S : ElfStructs) (ts : List (Val × Nat)) (loads : List Load)
+    (h1 : tagsOf ts "DT_REL" ≠ []) (h2 : tagsOf ts "DT_RELSZ" = []) :
+    getRelocationTables S ts loads = .error .stopIteration :=
+  tables_rel_no_size S ts loads h1 h2
+
+theorem dyn_rel_no_ent (cfg : ElfCfg) (hcls : cfg.cls = 32 ∨ cfg.cls = 64) (ts : List (Val × Nat)) (loads : List Load)
+    (h1 : tagsOf ts "DT_REL" ≠ []) (h2 : tagsOf ts "DT_RELSZ" ≠ []) (h3 : tagsOf ts "DT_RELENT" = []) :
+    getRelocationTables (Spec.elfStructs cfg) ts loads = .error .stopIteration :=
+  tables_rel_no_ent cfg hcls ts loads h1 h2 h3
+
+/-- DT_RELENT present but not the entry size of the file's class / machine: the library's ELFError -/
+theorem dyn_rel_bad_ent (cfg : ElfCfg) (hcls : cfg.cls = 32 ∨ cfg.cls = 64) (ts : List (Val × Nat)) (loads : List Load)
+    (h1 : tagsOf ts "DT_REL" ≠ []) (h2 : tagsOf ts "DT_RELSZ" ≠ []) (e : Nat) (es : List Nat)
+    (h3 : tagsOf ts "DT_RELENT" = e :: es) (hne : e ≠ relEntSize (relCfgOf cfg) false) :
+    getRelocationTables (Spec.elfStructs cfg) ts loads = .error .elfError :=
+  tables_rel_bad_ent cfg hcls ts loads h1 h2 h3 hne
+
+theorem dyn_rela_no_size (S : ElfStructs) (ts : List (Val × Nat)) (loads : List Load)
+    (h0 : tagsOf ts "DT_REL" = []) (h1 : tagsOf ts "DT_RELA" ≠ []) (h2 : tagsOf ts "DT_RELASZ" = []) :
+    getRelocationTables S ts loads = .error .stopIteration :=
+  tables_rela_no_size S ts loads h0 h1 h2
+
+theorem dyn_rela_no_ent (cfg : ElfCfg) (hcls : cfg.cls = 32 ∨ cfg.cls = 64) (ts : List (Val × Nat)) (loads : List Load)
+    (h0 : tagsOf ts "DT_REL" = []) (h1 : tagsOf ts "DT_RELA" ≠ []) (h2 : tagsOf ts "DT_RELASZ" ≠ [])
+    (h3 : tagsOf ts "DT_RELAENT" = []) :
+    getRelocationTables (Spec.elfStructs cfg) ts loads = .error .stopIteration :=
+  tables_rela_no_ent cfg hcls ts loads h0 h1 h2 h3
+
+theorem dyn_rela_bad_ent (cfg : ElfCfg) (hcls : cfg.cls = 32 ∨ cfg.cls = 64) (ts : List (Val × Nat)) (loads : List Load)
+    (h0 : tagsOf ts "DT_REL" = []) (h1 : tagsOf ts "DT_RELA" ≠ []) (h2 : tagsOf ts "DT_RELASZ" ≠ []) (e : Nat) (es : List Nat)
+    (h3 : tagsOf ts "DT_RELAENT" = e :: es) (hne : e ≠ relEntSize (relCfgOf cfg) true) :
+    getRelocationTables (Spec.elfStructs cfg) ts loads = .error .elfError :=
+  tables_rela_bad_ent cfg hcls ts loads h0 h1 h2 h3 hne
+
+theorem dyn_relr_incomplete (S : ElfStructs) (ts : List (Val × Nat)) (loads : List Load)
+    (h0 : tagsOf ts "DT_REL" = []) (h0' : tagsOf ts "DT_RELA" = []) (h1 : tagsOf ts "DT_RELR" ≠ [])
+    (h2 : tagsOf ts "DT_RELRSZ" = [] ∨ tagsOf ts "DT_RELRENT" = []) :
+    getRelocationTables S ts loads = .error .stopIteration :=
+  tables_relr_no_size_or_ent S ts loads h0 h0' h1 h2
+
+theorem dyn_jmprel_incomplete (S : ElfStructs) (ts : List (Val × Nat)) (loads : List Load)
+    (h0 : tagsOf ts "DT_REL" = []) (h0' : tagsOf ts "DT_RELA" = []) (h0'' : tagsOf ts "DT_RELR" = [])
+    (h1 : tagsOf ts "DT_JMPREL" ≠ [])
+    (h2 : tagsOf ts "DT_PLTRELSZ" = [] ∨ tagsOf ts "DT_PLTREL" = []) :
+    getRelocationTables S ts loads = .error .stopIteration :=
+  tables_jmprel_no_size_or_flavour S ts loads h0 h0' h0'' h1 h2
+
+/-- the same at the level of the file, for one case (the others lift in the same way): a dynamic array anywhere in a
+    file that has DT_REL but no DT_RELSZ entry -/
+theorem dyn_rel_no_size_file (cfg : ElfCfg) (hcls : cfg.cls = 32 ∨ cfg.cls = 64) (env : Env)
+    (henv : DTagEnv env (dTagTable cfg.mclass cfg.solaris)) (tags : List DynEntry) (nv : Nat)
+    (loads : List Load) (data rest : Bytes) (off : Nat)
+    (hd : data.drop off = encDynArray cfg.le cfg.cls (tags ++ [(DT_NULL, nv)]) ++ rest)
+    (hfit : off + (tags.length + 1) * (2 * (cfg.cls / 8)) ≤ 2 ^ 63)
+    (hwf : ∀ e ∈ tags ++ [(DT_NULL, nv)], WFDyn cfg.cls e = true) (hnn : ∀ e ∈ tags, e.1 ≠ DT_NULL)
+    (h1 : ∃ e ∈ tags, e.1 = DT_REL) (h2 : ∀ e ∈ tags, e.1 ≠ DT_RELSZ) :
+    (do let tg ← iterTags env (Spec.elfStructs cfg) data off false
+        getRelocationTables (Spec.elfStructs cfg) tg loads) = .error .stopIteration := by
+  rw [iterTags_spec cfg hcls env henv tags nv hwf hnn hd hfit]
+  show getRelocationTables _ _ _ = _
+  apply tables_rel_no_size
+  · rw [tagsOf_dec henv (name := "DT_REL") (k := DT_REL) (by simp [relDynTags])]
+    obtain ⟨e, he, hk⟩ := h1
+    intro hnil
+    have : e.2 ∈ dynVals (tags ++ [(DT_NULL, nv)]) DT_REL := by
+      unfold dynVals
+      exact List.mem_map.2 ⟨e, List.mem_filter.2 ⟨List.mem_append_left _ he, by simp [hk]⟩, rfl⟩
+    rw [hnil] at this
+    cases this
+  · rw [tagsOf_dec henv (name := "DT_RELSZ") (k := DT_RELSZ) (by simp [relDynTags])]
+    unfold dynVals
+    rw [List.map_eq_nil_iff, List.filter_eq_nil_iff]
+    intro e he
+    rcases List.mem_append.1 he with h | h
+    · simpa using h2 e h
+    · simp only [List.mem_singleton] at h
+      subst h
+      show ¬ ((DT_NULL == DT_RELSZ) = true)
+      decide
+
+/-- a table whose address no PT_LOAD maps has `offset = None`: `num_relocations()` answers, `get_relocation(n)` /
+    iterating a non-empty table is Python's TypeError (`None + int`); an unmapped RELR table is empty when DT_RELRSZ is
+    0 and TypeError otherwise -/
+theorem dyn_unmapped_access (env : Env) (data : Bytes) (t : RelocTable) (h : t.offset = none) (n : Nat) :
+    getRelocation env data t n = .error .typeError :=
+  unmapped_table_access env data t h n
+
+theorem dyn_unmapped_iter (env : Env) (data : Bytes) (t : RelocTable) (h : t.offset = none) (hz : t.entrySize ≠ 0) :
+    iterRelocations env data t = if t.size / t.entrySize = 0 then .ok [] else .error .typeError :=
+  unmapped_table_iter env data t h hz
+
+theorem dyn_unmapped_relr (env : Env) (data : Bytes) (t : RelrTable) (h : t.offset = none) :
+    relrIter env data t = if t.size = 0 then .ok [] else .error .typeError :=
+  unmapped_relr_iter env data t h
+
+/-! ### whole files (fifth wave): composition with C01
+
+  `d : Spec.ElfDesc` is an abstract ELF description, `Spec.Layout d bytes` says the byte string carries it (header at
+  0, tables and bodies wherever the description puts them — nothing else about `bytes` is constrained), `d.wfZ env`
+  is C01's well-formedness (compressed sections admitted).  The reader is the mirror of elffile.py instantiated with
+  the standards-side struct factory (`C01.specStructs`, `C01.specMachineClass`; TieC01 proves them equal to what
+  /repo builds); nothing is handed to the relocation code that was not decoded from `bytes`.  `EnvRel env` says the
+  enum environment names SHT_SYMTAB, SHT_RELA, SHT_REL, SHT_DYNSYM, SHT_RELR as the gABI does (`elfEnv_rel`: the
+  library's environment does, for every machine's table). -/
+
+/-- the library's own environment satisfies `EnvRel` -/
+theorem elfEnv_rel : EnvRel Model.elfEnv where
+  symtab m := by unfold shTypeTable; split <;> rfl
+  rela m := by unfold shTypeTable; split <;> rfl
+  rel m := by unfold shTypeTable; split <;> rfl
+  dynsym m := by unfold shTypeTable; split <;> rfl
+  relr m := by unfold shTypeTable; split <;> rfl
+  onlyRel m n := (elfEnv_only m n).1
+  onlyRela m n := (elfEnv_only m n).2
+
+/-- `ELFFile(BytesIO(bytes)).get_section(i)` for a SHT_REL / SHT_RELA section of any file carrying `d`
+    (`relTableAt`: the section's body is the encoding of `es`, followed by anything; `sh_size` is the table's length):
+    a RelocationSection of the flavour the type names, whose `num_relocations` / `iter_relocations` /
+    `get_relocation(n)` are exactly the encoded entries. -/
+theorem file_rel_roundtrip (env : Env) (he : EnvRel env) (d : ElfDesc) (bytes : Bytes)
+    (hwf : d.wfZ env = true) (hl : Layout d bytes) (i : Nat) (rela : Bool) (es : List RelEntry)
+    (hsec : relTableAt d i rela es = true) (hwfe : ∀ e ∈ es, WFRel (relCfgOf d.cfg) rela e = true) :
+    ∃ f t, openElf env C01.specStructs C01.specMachineClass bytes = .ok f ∧ f.data = bytes ∧
+      getRelSection env f i = .ok (.rel t) ∧
+      t.isRela = rela ∧ t.entrySize = relEntSize (relCfgOf d.cfg) rela ∧
+      numRelocations t = .ok es.length ∧
+      iterRelocations env bytes t = .ok (es.map (observeRel (relCfgOf d.cfg) rela)) ∧
+      ∀ n (h : n < es.length), getRelocation env bytes t n = .ok (observeRel (relCfgOf d.cfg) rela es[n]) := by
+  have T := relTableAt_unpack hsec
+  obtain ⟨slack, hbody⟩ := T.body
+  obtain ⟨hdr, st, X, hopen⟩ := Proofs.C15.file_setup hwf hl (Nat.lt_of_le_of_lt (Nat.zero_le _) T.hi)
+  rw [C01.specStructs_eq, C01.specMachineClass_eq]
+  obtain ⟨t, hget, -, h1, h2, h3, h4, h5⟩ := fileRel_ok he hwf hl hopen (List.getElem?_eq_getElem T.hi) T.flavour es hwfe
+    slack hbody T.size T.fit
+  exact ⟨_, t, hopen, rfl, hget, h1, h2, h3, h4, h5⟩
+
+/-- `ELFFile(BytesIO(bytes)).get_section(i)` for a SHT_RELR section of any file carrying `d`: a RelrRelocationSection
+    whose relocations are exactly the address sequence the word stream denotes (ELFError for a bitmap before any anchor) -/
+theorem file_relr_eq_std (env : Env) (he : EnvRel env) (d : ElfDesc) (bytes : Bytes)
+    (hwf : d.wfZ env = true) (hl : Layout d bytes) (i : Nat) (ws : List Nat)
+    (hsec : relrAt d i ws = true) (hws : ∀ x ∈ ws, x < 2 ^ d.cls) :
+    ∃ f t, openElf env C01.specStructs C01.specMachineClass bytes = .ok f ∧ f.data = bytes ∧
+      getRelSection env f i = .ok (.relr t) ∧
+      relrIter env bytes t
+        = match relrStd (d.cls / 8) none ws with
+          | some xs => .ok xs
+          | none => .error .elfError := by
+  obtain ⟨hi, hraw, ⟨slack, hbody⟩, hsize, hfit⟩ := relrAt_unpack hsec
+  obtain ⟨hdr, st, X, hopen⟩ := Proofs.C15.file_setup hwf hl (Nat.lt_of_le_of_lt (Nat.zero_le _) hi)
+  rw [C01.specStructs_eq, C01.specMachineClass_eq]
+  obtain ⟨t, hget, hit⟩ := fileRelr_ok he hwf hl hopen (List.getElem?_eq_getElem hi) hraw ws hws slack hbody hsize hfit
+  exact ⟨_, t, hopen, rfl, hget, hit⟩
+
+/-- `get_section_by_name(name)` on a fresh file object is `get_section` of the last section bearing the name
+    (C01.lookup_exact), so `file_rel_roundtrip` / `file_relr_eq_std` hold of the object it returns -/
+theorem file_get_section_by_name (env : Env) (d : ElfDesc) (bytes : Bytes) (obs : ElfObs) (f : ElfFile)
+    (hwf : d.wfZ env = true) (hl : Layout d bytes) (ho : d.observe env = .ok obs)
+    (hf : openElf env C01.specStructs C01.specMachineClass bytes = .ok f) (name : Bytes) :
+    getRelSectionByName env f name =
+      match d.indexOfName name with
+      | none => .ok none
+      | some i => (getRelSection env f i).map some := by
+  rw [C01.specStructs_eq, C01.specMachineClass_eq] at hf
+  exact getRelSectionByName_eq hwf hl ho hf name
+
+/-- `RelocationHandler(ELFFile(BytesIO(bytes))).find_relocations_for_section(<section named target>)` over ALL sections of
+    the file: `None` when no SHT_REL / SHT_RELA section of the description is named `.rel<target>` / `.rela<target>`,
+    otherwise the first such section — its index and the very object `get_section` reports for it (C01). -/
+theorem file_find_relocations_exact (env : Env) (he : EnvRel env) (d : ElfDesc) (bytes : Bytes) (obs : ElfObs) (f : ElfFile)
+    (hwf : d.wfZ env = true) (hl : Layout d bytes) (ho : d.observe env = .ok obs)
+    (hf : openElf env C01.specStructs C01.specMachineClass bytes = .ok f) (hn : 0 < d.sections.length) (target : Bytes) :
+    fileFindRelocations env f target
+      = .ok (match relSecByName d target with
+             | none => none
+             | some r => obs.sections[r]?.map fun s => (r, s)) := by
+  rw [C01.specStructs_eq, C01.specMachineClass_eq] at hf
+  obtain ⟨hdr, st, X, rfl⟩ := open_fileOf hwf hl hn hf
+  rw [fileFind_spec he X target]
+  have hlen : obs.sections.length = d.sections.length := (mapM_ok_inv _ _ _ (observe_inv ho).2.1).1
+  cases hr : relSecByName d target with
+  | none => rfl
+  | some r =>
+    have hr' : r < d.sections.length := by
+      unfold relSecByName at hr
+      exact (List.findIdx?_eq_some_iff_findIdx_eq.1 hr).1
+    have hr'' : r < obs.sections.length := by omega
+    simp only [getSection_obs X ho hr' hr'', Except.map, List.getElem?_eq_getElem hr'', Option.map_some]
+
+/-- lookup by name against the gABI.  `sh_info` of a SHT_REL / SHT_RELA section is the index of the section the
+    relocations apply to; the library looks the relocation section up by its conventional NAME instead.  When, among the
+    relocation sections of the file, exactly those whose `sh_info` is `t` are named `.rel<target>` / `.rela<target>`
+    (`namesFollowInfo`, decidable on the description; true of every object a standard toolchain writes for a section
+    whose name is unique), both lookups give the same section.  Outside that — two sections of the same name, each
+    with its own relocation section, as COMDAT groups produce — `file_find_relocations_exact` says exactly what is
+    returned: the first by name. -/
+theorem find_by_name_eq_by_info (d : ElfDesc) (t : Nat) (target : Bytes) (h : namesFollowInfo d t target = true) :
+    relSecByName d target = relSecByInfo d t :=
+  relSecByName_eq_byInfo d t target h
+
+/-- `h = RelocationHandler(elffile); h.apply_section_relocations(stream, h.find_relocations_for_section(section))` on a
+    caller-supplied copy `sec` of the section's bytes, for any file carrying `d`: the relocation section is found by name
+    among all sections (`relSecByName`), its entries are decoded from the file, the symbol table is the section its
+    `sh_link` designates (`relocPairAt`), the machine is the file header's — the result is the standard's fold of the
+    relocations over `sec`, or ELFRelocationError as soon as one entry must be rejected. -/
+theorem file_apply_section_eq_std (P : C11.Params) (hS : P.structsFor = C01.specStructs)
+    (hM : P.machineClassOf = C01.specMachineClass) (he : EnvRel P.env) (d : ElfDesc) (bytes : Bytes) (obs : ElfObs)
+    (hwf : d.wfZ P.env = true) (hl : Layout d bytes) (ho : d.observe P.env = .ok obs)
+    (target : Bytes) (r : Nat) (rela : Bool) (es : List RelEntry) (syms : List Nat)
+    (hfind : relSecByName d target = some r) (hpair : relocPairAt d r rela es syms = true)
+    (m : Val) (hm : obs.header.getField "e_machine" = .ok m) (a : Arch) (harch : P.machineArchOf m = archString a)
+    (hmips : (relCfgOf d.cfg).mips = decide (a = .mips))
+    (sec : Bytes) (hwfa : WFApply a (relCfgOf d.cfg) rela syms sec.length es = true) :
+    ∃ f, openElf P.env P.structsFor P.machineClassOf bytes = .ok f ∧
+      fileApplyFor P f target sec
+        = match applyStd a (relCfgOf d.cfg) rela syms sec es with
+          | some b => .ok (some b)
+          | none => .error .elfRelocError := by
+  have R := relocPairAt_unpack hpair
+  obtain ⟨hdr, st, X, hopen⟩ := Proofs.C15.file_setup hwf hl (Nat.lt_of_le_of_lt (Nat.zero_le _) R.hr)
+  have hhdr : obs.header = hdr := by
+    have h1 := (observe_inv ho).1
+    have h2 := (openElf_fields X.hw X.hL h1 hopen).2.2.2.2
+    exact h2.symm
+  rw [hS, hM, C01.specStructs_eq, C01.specMachineClass_eq]
+  exact ⟨_, hopen, fileApplyFor_spec he X target hfind R (by rw [← hhdr]; exact hm) harch hmips sec hwfa⟩
+
+/-- End to end over a whole file, `ELFFile(BytesIO(bytes))._read_dwarf_section(<section t>, relocate_dwarf_sections=True)`
+    (the mirror C11 maintains and checks against `get_dwarf_info`): section `t` stores `sec` plainly (`plainTargetAt`),
+    `relSecByName` finds relocation section `r` for its name, `relocPairAt` describes `r`'s table and symbol table.  The
+    descriptor handed to the DWARF parsers has the standard's fold of the relocations as its stream, the section's
+    name, file offset, size and address — or the load fails with ELFRelocationError as soon as one entry must be
+    rejected.  (`hph`: not a dsPIC30F object with phantom bytes, as in C11's theorems.  The trailing `false` is
+    `legacy_compressed`, the parameter `_read_dwarf_section` gained with the `.zdebug` repair: section `t` is stored
+    plainly, not a legacy `.zdebug_*` section.) -/
+theorem file_read_dwarf_section_relocated (P : C11.Params) (hS : P.structsFor = C01.specStructs)
+    (hM : P.machineClassOf = C01.specMachineClass) (he : EnvRel P.env) (d : ElfDesc) (bytes : Bytes) (obs : ElfObs)
+    (hwf : d.wfZ P.env = true) (hl : Layout d bytes) (ho : d.observe P.env = .ok obs)
+    (hph : C11.hasPhantomBytes obs.header = .ok false)
+    (t : Nat) (tsd : SecDesc) (htsd : d.sections[t]? = some tsd) (tobs : C11.Sec) (htobs : obs.sections[t]? = some tobs)
+    (sec : Bytes) (htgt : plainTargetAt P.env d t sec = true)
+    (r : Nat) (rela : Bool) (es : List RelEntry) (syms : List Nat)
+    (hfind : relSecByName d tsd.name = some r) (hpair : relocPairAt d r rela es syms = true)
+    (m : Val) (hm : obs.header.getField "e_machine" = .ok m) (a : Arch) (harch : P.machineArchOf m = archString a)
+    (hmips : (relCfgOf d.cfg).mips = decide (a = .mips))
+    (hwfa : WFApply a (relCfgOf d.cfg) rela syms sec.length es = true) :
+    ∃ f, C11.load P bytes = .ok (f, obs.sections) ∧
+      C11.readDwarfSection P f obs.sections tobs true false
+        = match applyStd a (relCfgOf d.cfg) rela syms sec es with
+          | some b => .ok ⟨b, tsd.name, getNatD tsd.hdr "sh_offset", sec.length, getNatD tsd.hdr "sh_addr"⟩
+          | none => .error (.py .elfRelocError) := by
+  have R := relocPairAt_unpack hpair
+  have T := plainTargetAt_unpack htgt
+  obtain ⟨hti, rfl⟩ := List.getElem?_eq_some_iff.1 htsd
+  obtain ⟨hto, rfl⟩ := List.getElem?_eq_some_iff.1 htobs
+  obtain ⟨hdr, st, X, hopen⟩ := Proofs.C15.file_setup hwf hl (Nat.lt_of_le_of_lt (Nat.zero_le _) R.hr)
+  have hhdr : obs.header = hdr := ((openElf_fields X.hw X.hL (observe_inv ho).1 hopen).2.2.2.2).symm
+  have hsecs := sections_gen X.hw hl ho hopen
+  refine ⟨_, ?_, readDwarfSection_file he X ho (by rw [← hhdr]; exact hph) T hto hfind R (by rw [← hhdr]; exact hm) harch
+    hmips hwfa⟩
+  unfold C11.load
+  rw [hS, hM, C01.specStructs_eq, C01.specMachineClass_eq, hopen]
+  simp only [bind, Except.bind]
+  have : iterSections P.env (Proofs.C15.fileOf d bytes hdr st).S (Proofs.C15.fileOf d bytes hdr st).data
+      (Proofs.C15.fileOf d bytes hdr st).header (Proofs.C15.fileOf d bytes hdr st).shstr = .ok obs.sections := hsecs
+  rw [this]
+  rfl
+
+/-- `relocate_dwarf_sections=False`, or no relocation section bears the conventional name: the descriptor's stream is the
+    section's bytes as stored in the file, every byte unchanged -/
+theorem file_read_dwarf_section_untouched (P : C11.Params) (hS : P.structsFor = C01.specStructs)
+    (hM : P.machineClassOf = C01.specMachineClass) (he : EnvRel P.env) (d : ElfDesc) (bytes : Bytes) (obs : ElfObs)
+    (hwf : d.wfZ P.env = true) (hl : Layout d bytes) (ho : d.observe P.env = .ok obs)
+    (hph : C11.hasPhantomBytes obs.header = .ok false)
+    (t : Nat) (tsd : SecDesc) (htsd : d.sections[t]? = some tsd) (tobs : C11.Sec) (htobs : obs.sections[t]? = some tobs)
+    (sec : Bytes) (htgt : plainTargetAt P.env d t sec = true) (relocate : Bool)
+    (hno : relocate = false ∨ relSecByName d tsd.name = none) :
+    ∃ f, C11.load P bytes = .ok (f, obs.sections) ∧
+      C11.readDwarfSection P f obs.sections tobs relocate false
+        = .ok ⟨sec, tsd.name, getNatD tsd.hdr "sh_offset", sec.length, getNatD tsd.hdr "sh_addr"⟩ := by
+  have T := plainTargetAt_unpack htgt
+  obtain ⟨hti, rfl⟩ := List.getElem?_eq_some_iff.1 htsd
+  obtain ⟨hto, rfl⟩ := List.getElem?_eq_some_iff.1 htobs
+  obtain ⟨hdr, st, X, hopen⟩ := Proofs.C15.file_setup hwf hl (Nat.lt_of_le_of_lt (Nat.zero_le _) T.ht)
+  have hhdr : obs.header = hdr := ((openElf_fields X.hw X.hL (observe_inv ho).1 hopen).2.2.2.2).symm
+  have hsecs := sections_gen X.hw hl ho hopen
+  refine ⟨_, ?_, readDwarfSection_file_untouched he X ho (by rw [← hhdr]; exact hph) T hto relocate hno⟩
+  unfold C11.load
+  rw [hS, hM, C01.specStructs_eq, C01.specMachineClass_eq, hopen]
+  simp only [bind, Except.bind]
+  have : iterSections P.env (Proofs.C15.fileOf d bytes hdr st).S (Proofs.C15.fileOf d bytes hdr st).data
+      (Proofs.C15.fileOf d bytes hdr st).header (Proofs.C15.fileOf d bytes hdr st).shstr = .ok obs.sections := hsecs
+  rw [this]
+  rfl
+
+/-- the step of `get_dwarf_info(relocate_dwarf_sections=True)`'s per-section loop for one entry `kn` of its name table
+    (keyword, section name, renamed-when-.zdebug flag), in a file without `.zdebug_info`: the section is the LAST one
+    bearing the name (`indexOfName`, C01.lookup_exact), read and relocated as in `file_read_dwarf_section_relocated` -/
+theorem file_get_dwarf_info_section (P : C11.Params) (hS : P.structsFor = C01.specStructs)
+    (hM : P.machineClassOf = C01.specMachineClass) (he : EnvRel P.env) (d : ElfDesc) (bytes : Bytes) (obs : ElfObs)
+    (hwf : d.wfZ P.env = true) (hl : Layout d bytes) (ho : d.observe P.env = .ok obs)
+    (hph : C11.hasPhantomBytes obs.header = .ok false)
+    (kn : String × Bytes × Bool) (t : Nat) (tsd : SecDesc) (htsd : d.sections[t]? = some tsd)
+    (hidx : d.indexOfName kn.2.1 = some t) (hname : tsd.name = kn.2.1)
+    (sec : Bytes) (htgt : plainTargetAt P.env d t sec = true)
+    (r : Nat) (rela : Bool) (es : List RelEntry) (syms : List Nat)
+    (hfind : relSecByName d kn.2.1 = some r) (hpair : relocPairAt d r rela es syms = true)
+    (m : Val) (hm : obs.header.getField "e_machine" = .ok m) (a : Arch) (harch : P.machineArchOf m = archString a)
+    (hmips : (relCfgOf d.cfg).mips = decide (a = .mips))
+    (hwfa : WFApply a (relCfgOf d.cfg) rela syms sec.length es = true) :
+    ∃ f, C11.load P bytes = .ok (f, obs.sections) ∧
+      C11.readOne P f obs.sections true false kn
+        = match applyStd a (relCfgOf d.cfg) rela syms sec es with
+          | some b => .ok (kn.1, some ⟨b, kn.2.1, getNatD tsd.hdr "sh_offset", sec.length, getNatD tsd.hdr "sh_addr"⟩)
+          | none => .error (.py .elfRelocError) := by
+  have R := relocPairAt_unpack hpair
+  have T := plainTargetAt_unpack htgt
+  obtain ⟨hti, rfl⟩ := List.getElem?_eq_some_iff.1 htsd
+  obtain ⟨hdr, st, X, hopen⟩ := Proofs.C15.file_setup hwf hl (Nat.lt_of_le_of_lt (Nat.zero_le _) R.hr)
+  have hhdr : obs.header = hdr := ((openElf_fields X.hw X.hL (observe_inv ho).1 hopen).2.2.2.2).symm
+  have hsecs := sections_gen X.hw hl ho hopen
+  refine ⟨_, ?_, readOne_file he X ho (by rw [← hhdr]; exact hph) T kn hidx hname hfind R (by rw [← hhdr]; exact hm) harch
+    hmips hwfa⟩
+  unfold C11.load
+  rw [hS, hM, C01.specStructs_eq, C01.specMachineClass_eq, hopen]
+  simp only [bind, Except.bind]
+  have : iterSections P.env (Proofs.C15.fileOf d bytes hdr st).S (Proofs.C15.fileOf d bytes hdr st).data
+      (Proofs.C15.fileOf d bytes hdr st).header (Proofs.C15.fileOf d bytes hdr st).shstr = .ok obs.sections := hsecs
+  rw [this]
+  rfl
+
 /-! ### non-vacuity -/
 
 example : WFRel ⟨true, 64, true⟩ true { offset := 0x10, sym := 7, type := 18, addend := -8, ssym := 1, type2 := 2, type3 := 3 } = true := by decide
@@ -442,5 +893,49 @@ example : dynTablesStd ⟨true, 64, false⟩ [⟨0, 0x800, 0⟩, ⟨0x1000, 0x10
 example : relocSectionFor ".debug_info"
     [⟨".text", none, 64, 16, 0⟩, ⟨".rela.text", some true, 200, 48, 5⟩, ⟨".rela.debug_info", some true, 248, 24, 5⟩]
     = some ⟨".rela.debug_info", some true, 248, 24, 5⟩ := by decide
+
+/-! non-vacuity, fifth wave -/
+
+-- R_X86_64_NONE at the very end of a 12-byte section and far beyond it; R_386_NONE two bytes before the end: in the domain
+example : WFApplyOne .x64 ⟨true, 64, false⟩ true 12 { offset := 12, sym := 0, type := 0, addend := 7 } = true := by decide
+example : WFApplyOne .x64 ⟨true, 64, false⟩ true 12 { offset := 0xffffffffffffffff, sym := 0, type := 0 } = true := by decide
+example : WFApplyOne .x86 ⟨true, 32, false⟩ false 12 { offset := 10, sym := 0, type := 0 } = true := by decide
+example : applyAfterSym .x64 ⟨true, 64, false⟩ true 5 [1, 2, 3] { offset := 2, sym := 0, type := 0 } = some [1, 2, 3] := by decide
+-- … and were not in the earlier one
+example : WFApplyOneRoom .x64 ⟨true, 64, false⟩ true 12 { offset := 8, sym := 0, type := 0 } = false := by decide
+-- MIPS64: (R_MIPS_32, R_MIPS_SUB, 0) and (R_MIPS_NONE, R_MIPS_32, 0) are in the domain, and rejected
+example : WFApplyOne .mips ⟨true, 64, true⟩ true 12 { offset := 0, sym := 1, type := 2, type2 := 24, addend := 5 } = true := by decide
+example : applyAfterSym .mips ⟨true, 64, true⟩ true 0x1000 [0, 0, 0, 0] { offset := 0, sym := 1, type := 2, type2 := 24 } = none := by decide
+example : applyAfterSym .mips ⟨true, 64, true⟩ false 0x1000 [0, 0, 0, 0] { offset := 0, sym := 1, type := 0, type2 := 2 } = none := by decide
+example : applyAfterSym .mips ⟨true, 64, true⟩ true 0x1000 [0, 0, 0, 0] { offset := 0, sym := 1, type := 2, addend := 5 }
+    = some [5, 0x10, 0, 0] := by decide
+-- the hypotheses of `apply_none_any_offset` / `apply_field_outside` / `apply_rejects_composite`
+example : flavourOk .x64 true = true ∧ psabi .x64 true 0 = some (0, .keep) ∧ psabi .mips false 0 = some (0, .keep) := by decide
+example : psabi .x64 true 2 = some (4, .sap) ∧ Formula.sap ≠ Formula.keep ∧ [1, 2, 3].length < 2 + 4 := by decide
+example : (⟨true, 64, true⟩ : RelCfg).packed = true ∧ (⟨true, 32, true⟩ : RelCfg).packed = false := by decide
+-- the hypotheses of the `dyn_*` edge theorems: DT_REL without DT_RELSZ; DT_JMPREL with DT_PLTRELSZ but no DT_PLTREL
+example : tagsOf [(.str "DT_REL", 0x1000), (.str "DT_RELENT", 8), (.str "DT_NULL", 0)] "DT_REL" ≠ [] ∧
+    tagsOf [(.str "DT_REL", 0x1000), (.str "DT_RELENT", 8), (.str "DT_NULL", 0)] "DT_RELSZ" = [] := by decide
+example : tagsOf [(.str "DT_JMPREL", 0x1000), (.str "DT_PLTRELSZ", 48), (.int 0x6ffffffb, 1)] "DT_PLTREL" = [] := by decide
+example : tagsOf [(.str "DT_REL", 0), (.str "DT_RELSZ", 16), (.str "DT_RELENT", 12)] "DT_RELENT" = [12] ∧
+    12 ≠ relEntSize ⟨true, 32, false⟩ false := by decide
+-- a table at virtual address 0 (mapped by the first PT_LOAD) is described and found
+example : DynDescribes ⟨true, 64, false⟩ { rela := some ⟨0, 48⟩ } [(DT_RELASZ, 48), (DT_RELA, 0), (DT_RELAENT, 24)] = true := by decide
+example : dynTablesStd ⟨true, 64, false⟩ [⟨0, 0x800, 0x40⟩] { rela := some ⟨0, 48⟩ } = [("RELA", .rel (some 0x40) 48 24 true)] := by
+  decide
+-- a whole image: `.debug_info` (section 3) relocated by `.rela.debug_info` (section 4, found by name and by sh_info)
+-- against `.symtab` (section 2), and a `.relr.dyn` section (5).  `ElfDesc.wfZ` goes through `Con.encodeRaw` /
+-- `Con.decodeRaw`, which do not reduce in the kernel: checked by the evaluator at build time, as in C01 / C14 / C15.
+#guard exRelFile.wfZ Model.elfEnv && observable Model.elfEnv exRelFile && (exRelFile.assemble 3).isSome &&
+  relTableAt exRelFile 4 true exRelocs && relocPairAt exRelFile 4 true exRelocs exSyms &&
+  plainTargetAt Model.elfEnv exRelFile 3 exDebug && relSecByName exRelFile nDebugInfo == some 4 &&
+  relSecByInfo exRelFile 3 == some 4 && namesFollowInfo exRelFile 3 nDebugInfo &&
+  exRelFile.indexOfName nDebugInfo == some 3 && relrAt exRelFile 5 [0x1000, 0x7, 0x2001] &&
+  exRelocs.all (WFRel (relCfgOfDesc exRelFile) true) &&
+  WFApply .ppc64 (relCfgOfDesc exRelFile) true exSyms exDebug.length exRelocs &&
+  archOfMachine 21 == some .ppc64 && Reloc.machineArchOf (.str "EM_PPC64") == archString .ppc64
+example : applyStd .ppc64 ⟨false, 64, false⟩ true exSyms exDebug exRelocs
+    = some [0, 0, 0x10, 5, 0, 0, 0x0f, 0xfb, 0xff, 0xff, 0xff, 0xff, 0xff, 0xff, 0xff, 0xef, 17] := by decide
+example : relrStd 8 none [0x1000, 0x7, 0x2001] = some [0x1000, 0x1008, 0x1010, 0x1260] := by decide
 
 end PyElf.Props.C08
